@@ -1567,6 +1567,10 @@ Error Assembler::_emit(InstId inst_id, const Operand_& o0, const Operand_& o1, c
         if (shift_type > uint32_t(ShiftOp::kROR) || shift_value >= op_size)
           goto InvalidImmediate;
 
+        // NEG|NEGS are aliases of SUB|SUBS (shifted register, bit 24 set), which have no ROR form (MVN = ORN has).
+        if (shift_type == uint32_t(ShiftOp::kROR) && (opcode.get() & B(24)))
+          goto InvalidImmediate;
+
         opcode.add_imm(shift_type, 22);
         opcode.add_imm(shift_value, 10);
         goto EmitOp;
